@@ -69,6 +69,7 @@ Inductive fk :=
 | KLookup
 | KInsert (x : nat) (xl : nat)              (* Insert4: node x of level xl *)
 | KInsertFix (x : nat) (xl : nat) (i : nat) (* re-search after a failed upper-level link at level i *)
+| KInsertDone (x : nat) (xl : nat)          (* clean-up search: x was deleted while being linked; then finish *)
 | KDelete                                   (* Delete: locate the node *)
 | KUnlink                                   (* deleteNode: trailing findPath after a successful mark *)
 | KSeek                                     (* Iterator.Seek *)
@@ -98,6 +99,7 @@ Inductive local :=
                                                                  CAS of the node's own pointer (one segment:
                                                                  no yield point fits inside the Go condition) *)
 | LInsLink (k : Z) (x xl : nat) (b : buf) (i : nat)          (* before preds[i].dcasNext(i, succs[i] -> x) *)
+| LInsCheck (k : Z) (x xl : nat) (b : buf) (i : nat)         (* linked at level i: before the re-check x.getNext(i) *)
 (* softDelete *)
 | LSdLoad (k : Z) (n : nat) (i : nat) (marked : bool)        (* before n.getNext(i) *)
 | LSdCas (k : Z) (n : nat) (i : nat) (marked : bool) (next : nat) (* before the mark CAS *)
@@ -148,6 +150,7 @@ Definition fp_done (sh : shared) (p : pers) (k : Z) (c : fk) (b : buf) (found : 
       let x_nd := mkNd k xl (map (fun i => (succ_at b i, false)) (seq 0 (S xl))) in
       (mkSh (set_nth x x_nd (heap sh)) (sl_level sh) (sts sh), p, inl (LInsPub k x xl b))
   | KInsertFix x xl i => (sh, p, inl (LInsOwn k x xl b i))
+  | KInsertDone x xl => insert_finish sh p k x xl
   | KDelete => if found then softdelete_start sh p k (succ_at b 0) else (sh, p, inr (RBool false))
   | KUnlink => (sh, p, inr (RBool true))
   | KSeek =>
@@ -231,9 +234,12 @@ Definition step (tid : nat) (l : local) (p : pers) (sh : shared) : R :=
       if ok then (sh1, p, inl (LInsLink k x xl b i)) else insert_finish sh1 p k x xl
   | LInsLink k x xl b i =>
     let '(sh1, ok) := dcas sh (pred_at b i) i (succ_at b i) x false in
-    if ok then
-      if (i <? xl)%nat then (sh1, p, inl (LInsOwn k x xl b (S i))) else insert_finish sh1 p k x xl
+    if ok then (sh1, p, inl (LInsCheck k x xl b i))
     else (sh1, p, inl (LFP0 k (KInsertFix x xl i) b))
+  | LInsCheck k x xl b i =>
+    (* repaired Insert4: a delete may have marked x and finished its unlink pass before the link *)
+    if snd (getnext sh x i) then (sh, p, inl (LFP0 k (KInsertDone x xl) b))
+    else if (i <? xl)%nat then (sh, p, inl (LInsOwn k x xl b (S i))) else insert_finish sh p k x xl
   | LSdLoad k n i marked =>
     let '(next, deleted) := getnext sh n i in
     if deleted then
